@@ -7,8 +7,9 @@ SEGS = ["A", "B", "C", "D"]
 BASE = ["S\t%s\t8\t*" % s for s in SEGS]
 EDGES = {
     "e1": ("A+", "B+"), "e2": ("B+", "C+"), "e3": ("C+", "D+"), "e4": ("A+", "C-"), "e5": ("B+", "C+"), "e6": ("D-", "A+"), "e7": ("B-", "A-"),
+    "e8": ("A+", "A+"),                 # an edge of a segment with itself (listed twice among the edges of A)
 }
-EPOS = {"e1": "6\t8$\t0\t2", "e2": "6\t8$\t0\t2", "e3": "6\t8$\t0\t2", "e4": "6\t8$\t6\t8$", "e5": "5\t8$\t0\t3", "e6": "0\t2\t0\t2", "e7": "0\t2\t6\t8$"}
+EPOS = {"e1": "6\t8$\t0\t2", "e2": "6\t8$\t0\t2", "e3": "6\t8$\t0\t2", "e4": "6\t8$\t6\t8$", "e5": "5\t8$\t0\t3", "e6": "0\t2\t0\t2", "e7": "0\t2\t6\t8$", "e8": "6\t8$\t0\t2"}
 
 
 def eline(e):
